@@ -101,12 +101,15 @@ func designDev(c *vf.Ctx) {
 		return n
 	}
 	kinds := strings.Split(os.Getenv("VERIF_KINDS"), ",")
-	name, mod, cf := sysModule("design", cfg, atoi("VERIF_MAXRPC", 1), atoi("VERIF_MAXSTIMS", 5), kinds, cfg.Points, "TypeOK StreamInvs OneWrite")
+	name, mod, cf := sysModule("design", cfg, atoi("VERIF_MAXRPC", 1), atoi("VERIF_MAXSTIMS", 5), kinds, cfg.Points, envOr("VERIF_INVS", "TypeOK StreamInvs OneWrite"))
 	cf = strings.Replace(cf, "Gen = FALSE", "Gen = TRUE", 1)
 	res, err := vf.TLC(vf.TLCOpts{Module: name, Cfg: cf, Extra: map[string]string{name + ".tla": mod}, Workers: 6, Timeout: 20 * time.Minute, HeapMB: 8000})
 	if err != nil {
 		fmt.Println("tlc:", err)
 		return
+	}
+	if res.Violated != "" {
+		fmt.Println(res.TraceText)
 	}
 	fmt.Printf("DESIGN %s kinds=%v maxRPC=%s maxStims=%s: finished=%v violated=%q generated=%d distinct=%d depth=%d wall=%.1fs\n", cfgString(cfg), kinds,
 		os.Getenv("VERIF_MAXRPC"), os.Getenv("VERIF_MAXSTIMS"), res.Finished, res.Violated, res.Generated, res.Distinct, res.Depth, res.Wall.Seconds())
@@ -114,3 +117,10 @@ func designDev(c *vf.Ctx) {
 }
 
 func init() { All["DESIGNDEV"] = designDev }
+
+func envOr(k, d string) string {
+	if v := os.Getenv(k); v != "" {
+		return v
+	}
+	return d
+}
